@@ -38,7 +38,7 @@ REQUIRED_PROBES = ['input_header_declares_read_groups_subset', 'many_small_conti
 def plan(tier):
     if tier == 'quick':
         return {'runs': 1600, 'budget_s': 50, 'chunk': 4, 'per_run_timeout': 600}
-    return {'runs': 24000, 'budget_s': 570, 'chunk': 8, 'per_run_timeout': 900}
+    return {'runs': 60000, 'budget_s': 540, 'chunk': 8, 'per_run_timeout': 900}
 
 
 def setup():
